@@ -162,6 +162,8 @@ for _m in ['parse_ipv4', 'parse_ipv6', 'parse_opaque_host', 'parse_host', 'parse
            'get_host', 'get_hostname', 'get_port', 'get_search', 'get_hash', 'get_username', 'get_password', 'get_protocol', 'update_base_port', 'clear_port',
            'update_base_hostname', 'has_empty_hostname', 'has_hostname', 'has_valid_domain', 'set_scheme', 'copy_scheme', 'set_protocol_as_file', 'has_port']:
     F('url_' + _m, U + _m, cls='url', mangled=r'_ZNK?3ada3url\d+%s(B5cxx11)?E.*' % _m)
+F('url_parse_scheme_1', U + 'parse_scheme', cls='url', mangled=r'_ZN3ada3url12parse_schemeILb1EEE.*', targs='true')
+F('url_parse_scheme_0', U + 'parse_scheme', cls='url', mangled=r'_ZN3ada3url12parse_schemeILb0EEE.*', targs='false', tdefault=True)
 F('usp_sort', 'ada::url_search_params::sort', cls='usp')
 F('idna_ascii_map', 'ada::idna::ascii_map')
 F('idna_is_ascii_sv', 'ada::idna::is_ascii', mangled=r'_ZN3ada4idna8is_asciiESt17basic_string_viewIcSt11char_traitsIcEE')
